@@ -54,6 +54,25 @@ CHECKS["C16"] = (
     "DESIGN.md 2/C16",
 )
 
+CHECKS["C07"] = (
+    "bounded exhaustive exploration + exhaustive single/double fault enumeration on the real Validator, judged by an independent Draft-4 evaluator over the raw schema files (jsonschema on my own dereferenced schema as cross-check)",
+    "Every document of S1/S2/S4 (valid and invalid) is validated against the schema of its root type for all 19 root types; on every schema-valid multi-level document every single fault of twelve kinds at every object and every applicable slot, and every pair of faults (quick: on four documents), is injected at dict level. The set of names in the returned messages must equal the set my evaluator derives; validate must never raise or mutate; verdicts must be invariant under upper-casing values, extra hidden keys, and list-of-roots validation.",
+    "Trusted: mcf/schemaeval.py (cases where it disagrees with the jsonschema library are skipped and counted). Comparison by set of message names; exact locations are decided by C08.",
+    "DESIGN.md 2/C07, 1.3",
+)
+CHECKS["C08"] = (
+    "bounded exhaustive exploration: documents x layouts (x all single gap deviations) rendered by a position-recording renderer; exhaustive text-level fault enumeration for error locations",
+    "Every S1/S4/root-list document under eight layouts (one keyword per line, one line, CRLF, tabs, values spread over lines, # comments, /* */ comments, lower case; thorough: every single gap deviation of eight kinds) is loaded with include_position=True: every block opener and keyword must carry exactly the line/column at which my renderer placed it, value positions must be in source order inside the statement. Every text-level fault of six kinds at every object of every valid multi-level document under four layouts must be reported with the name and line/column of the offending keyword or enclosing opener. Multi-line strings covered by two hand-made documents with an independent line/column count.",
+    "Trusted: mcf/docmodel.render's position bookkeeping (columns count characters, lines count LF).",
+    "DESIGN.md 2/C08",
+)
+CHECKS["C09"] = (
+    "exhaustive enumeration of all annotated schema entries x boundary versions x parent contexts, plus all call histories to depth 3/4 on one Validator (differential against fresh objects), plus schema export for all root types x boundary versions",
+    "Every minVersion/maxVersion-annotated slot and alternative found by scanning the raw schemas is exercised with a valid representative at versions just below, at and just above each bound, a mid version and no version, in every parent context (root and every containment path ending in the owning object) and judged against my independently pruned schema; every sequence of up to 3 (thorough 4) calls from 14 validate/export operations on one Validator (and a second one in the same process) must answer as fresh objects do; the exported schema must equal my pruned schema for all 19 root types x all boundary versions.",
+    "Trusted: mcf/schemaeval.prune + evaluator.",
+    "DESIGN.md 2/C09",
+)
+
 NOT_YET = {}
 
 
